@@ -198,7 +198,12 @@ static std::string jescape(const char *s)
       o += "\\t";
     else if (c < 0x20)
       o += ' ';
-    else
+    else if (c >= 0x7f) {
+      // file content quoted in a detail may hold any byte (freed-memory fill for one): keep the report valid UTF-8
+      char b[8];
+      snprintf(b, sizeof b, "\\u00%02x", c);
+      o += b;
+    } else
       o += (char)c;
   }
   return o;
